@@ -155,6 +155,7 @@ type tcase struct {
 	HasSib bool       `json:"hasSib"`
 	Vars   [][]string `json:"vars"`
 	Corner string     `json:"corner"`
+	Be     string     `json:"be"`
 }
 
 type M = map[string]interface{}
@@ -275,8 +276,23 @@ func got(payload string, err error) M {
 var resRT = []string{"PHYSICS", "TECHNICAL", "ANY"}
 var resRoles = []string{"r", "s", "any"}
 
+var resConsul *fakeconsul.Server // one fake Consul agent for all "res" cases on that backend (emptied per case)
+
 func doRes(rec *vtrace.Recorder, scn int, c *tcase, file string) {
-	be := newBackend(file)
+	var be sstore
+	switch c.Be {
+	case "", "file":
+		c.Be = "file"
+		be = &fileStore{newBackend(file)}
+	case "consul":
+		if resConsul == nil {
+			resConsul = fakeconsul.New()
+		}
+		resConsul.DeleteTree("")
+		be = &consulStore{resConsul}
+	default:
+		fatal("case %d: unknown backend %q", scn, c.Be)
+	}
 	present := map[string]bool{}
 	for _, k := range c.B {
 		present[k[0]+"/"+k[1]] = true
@@ -288,6 +304,11 @@ func doRes(rec *vtrace.Recorder, scn int, c *tcase, file string) {
 			if !present[rt+"/"+ro] {
 				be.put(pathOf(c.Q.Comp, rt, ro, "other"), "cfg:"+pathOf(c.Q.Comp, rt, ro, "other"))
 				be.put(pathOf("d", rt, ro, c.Q.Entry), "cfg:"+pathOf("d", rt, ro, c.Q.Entry))
+				// ... and longer-named neighbours: keys that merely START with the entry's name are not the entry
+				be.put(pathOf(c.Q.Comp, rt, ro, c.Q.Entry+"-full"), "long:"+pathOf(c.Q.Comp, rt, ro, c.Q.Entry))
+				if c.Be == "consul" { // (in the file backend a key below the entry would make the entry a folder)
+					be.put(pathOf(c.Q.Comp, rt, ro, c.Q.Entry+"/sub"), "below:"+pathOf(c.Q.Comp, rt, ro, c.Q.Entry))
+				}
 			}
 		}
 	}
@@ -309,7 +330,7 @@ func doRes(rec *vtrace.Recorder, scn int, c *tcase, file string) {
 	if b == nil {
 		b = [][]string{}
 	}
-	rec.Emit("Res", "scn", scn, "q", c.Q, "B", b, "res", res, "get", get, "proc", proc, "direct", direct,
+	rec.Emit("Res", "scn", scn, "q", c.Q, "B", b, "be", c.Be, "res", res, "get", get, "proc", proc, "direct", direct,
 		"qkept", *q == before)
 }
 
@@ -447,7 +468,7 @@ func (c *consulStore) service() *local.Service {
 func (c *consulStore) faultOn(f []int) { // the i-th KV read of the request is answered with HTTP 500
 	n := 0
 	c.srv.SetScript(func(r *fakeconsul.Request) *fakeconsul.Fault {
-		if r.Op != fakeconsul.OpGet {
+		if r.Op != fakeconsul.OpGet && r.Op != fakeconsul.OpKeys && r.Op != fakeconsul.OpList {
 			return nil
 		}
 		n++
@@ -476,6 +497,7 @@ type scenario struct {
 	Content map[string][]part `json:"content"`
 	Store   map[string]int    `json:"store"`
 	Backend string            `json:"backend"`
+	Nbrs    []string          `json:"nbrs"`
 	Stress  *struct {
 		Workers int `json:"workers"`
 		Repeat  int `json:"repeat"`
@@ -524,6 +546,16 @@ func doScenario(rec *vtrace.Recorder, sc *scenario, file string) {
 			be.put(keyPath(k), payloadX(k, v))
 		}
 	}
+	nbrs := sc.Nbrs
+	if nbrs == nil {
+		nbrs = []string{}
+	}
+	for _, k := range nbrs { // longer-named neighbours of the candidate entry x at this level
+		be.put(keyPath(k)+"-full", "long:"+keyPath(k))
+		if sc.Backend == "consul" {
+			be.put(keyPath(k)+"/sub", "below:"+keyPath(k))
+		}
+	}
 	if sc.Stress != nil {
 		// a bigger store: re-reading it takes longer (entries of another component, never asked for)
 		for i := 0; i < sc.Stress.Filler; i++ {
@@ -531,7 +563,7 @@ func doScenario(rec *vtrace.Recorder, sc *scenario, file string) {
 		}
 	}
 	svc := be.service() // ONE service for the whole sequence
-	rec.Emit("Reset", "scn", sc.ID, "content", content, "store", store, "backend", sc.Backend)
+	rec.Emit("Reset", "scn", sc.ID, "content", content, "store", store, "backend", sc.Backend, "nbrs", nbrs)
 	faults := func(f []int) []int {
 		if f == nil {
 			return []int{}
